@@ -86,9 +86,18 @@ fn sequential(w: &World, prog: &[Op]) -> Result<Obs, String> {
 }
 
 pub fn check_schedule(w: &World, programs: &[Vec<Op>], schedule: &[usize]) -> Option<(String, String)> {
-    let got = run_schedule(w, programs, schedule);
+    // COLD predictors: a fresh world (never-used predictors) for the interleaved run and another
+    // for each sequential baseline, so that state initialised on first use cannot be masked by
+    // earlier schedules having warmed the predictors up
+    let tier = if w.suffix_cap == 4 { Tier::Thorough } else { Tier::Quick };
+    let mut needed: Vec<usize> = programs.iter().flatten().filter_map(|o| if let Op::Predict(i) = o { Some(*i) } else { None }).collect();
+    needed.sort();
+    needed.dedup();
+    let cold = World::new_with(tier, Some(&needed));
+    let got = run_schedule(&cold, programs, schedule);
     for (t, (g, prog)) in got.iter().zip(programs).enumerate() {
-        let want = sequential(w, prog);
+        let base = World::new_with(tier, Some(&needed));
+        let want = sequential(&base, prog);
         if *g != want {
             let names: Vec<String> = prog.iter().map(|o| w.op_name(o)).collect();
             return Some((
